@@ -42,6 +42,18 @@ def run_witnesses(pid, rep):
     rep.rule(rule, "compile-fail witnesses (with compiling twins) and compile-pass auto-trait witnesses of the type-level clauses")
     crate = os.path.join(VERIF, ".cache", "witness", "crate")
     os.makedirs(os.path.join(crate, "src"), exist_ok=True)
+    # thorough runs of several properties may be started in parallel: they share this crate and its target directory
+    import fcntl
+    _lock = open(os.path.join(VERIF, ".cache", "witness", "lock"), "w")
+    fcntl.flock(_lock, fcntl.LOCK_EX)
+    try:
+        return _run_witnesses_locked(pid, rep, want, rule, crate)
+    finally:
+        fcntl.flock(_lock, fcntl.LOCK_UN)
+        _lock.close()
+
+
+def _run_witnesses_locked(pid, rep, want, rule, crate):
     tpl = open(os.path.join(VERIF, "engine", "witness", "Cargo.toml.in")).read().replace("@REPO@", REPO)
     open(os.path.join(crate, "Cargo.toml"), "w").write(tpl)
     shutil.copy(os.path.join(VERIF, "engine", "witness", "src", "lib.rs"), os.path.join(crate, "src", "lib.rs"))
